@@ -14,7 +14,7 @@ ASSUMPTIONS = {
     "C02": ["collision_free: 64-bit position keys are injective on the positions a history touches"],
     "C06": ["collision_free for the cached (long-lived generator) variants", "decided where no count-based draw fires and current_turn == board.turn()"],
     "C08": ["collision_free for the 64-bit key component of the search cache"],
-    "C09": ["runtime below the hook granularity (OS preemption inside RwLock, rayon work stealing) is outside the model"],
+    "C09": ["collision_free for the 64-bit key component of the search cache", "runtime below the hook granularity (OS preemption inside RwLock, rayon work stealing) is outside the model"],
     "C10": ["collision_free for the generator's cache"],
     "C17": ["collision_free for the repetition map"],
 }
@@ -101,13 +101,20 @@ CONFIG = {
         "rule": "(last_score, move) of alpha_beta_search vs a pruning-free, cache-free minimax computed by the extracted model (score equal; the move must be one whose own "
                 "minimax value equals it), depths 1..3, fresh contexts and one context reused along the successive searches of a game",
     },
+    "C09": {
+        "ignore_ops": ("pos", "sctx"), "spec_tags": ("sched",), "sample_tags": ("sched",), "search_mode": "exact",
+        "rule": "the same position and depth searched in rayon pools of 1..64 threads, free-running and under seeded perturbation of every yield point "
+                "(task begin/end, shared-cache read/write: random yields, per-task priorities, bounded long stalls), with fresh contexts and contexts reused from the "
+                "previous run: all (move, score) answers of a position must coincide and equal the model's exact minimax, the observer must never see one cache key "
+                "written with two values, nothing may panic or change the board",
+    },
     "C10": {
         "ignore_ops": ("pos",), "spec_tags": ("perft", "snap"), "sample_tags": ("perft",),
         "rule": "MoveGenerator::count_positions(depth) for depths 0..N in rayon pools of 1, 2, 4, 16 threads, with a cache-cleared and with a long-lived generator, vs the cumulative "
                 "perft of the rules spec (sum over k = 1..depth+1 of the number of legal move sequences of length k)",
     },
     "C14": {
-        "ignore_ops": ("pos", "game", "gtoggle"), "spec_tags": ("gcoord", "galg", "glabels", "gsnap"), "sample_tags": ("gcoord", "galg"),
+        "ignore_ops": ("pos", "game", "gtoggle", "gunplay"), "spec_tags": ("gcoord", "galg", "glabels", "gsnap", "cliin", "gbsnap"), "sample_tags": ("gcoord", "galg", "cliin"),
         "rule": "games played through the Game API: at every node several rejected inputs (mutated labels, labels of the previous position, illegal coordinate pairs; periodically all 4096 pairs) "
                 "must leave the game snapshot (board, clocks, key, history) unchanged, and one accepted input (by label or by coordinates) must play exactly the named move and append it to the history; "
                 "every answer is compared with the model's apply_by_coords / apply_by_notation",
@@ -118,7 +125,7 @@ CONFIG = {
                 "of every line, past the end of lines, and in supplied starting positions: the answer must be a legal move of the rules whenever one exists",
     },
     "C17": {
-        "ignore_ops": ("pos", "apply", "toggle", "undo"), "spec_tags": ("count",), "sample_tags": ("count",),
+        "ignore_ops": ("pos", "apply", "toggle", "undo", "gnew", "gtoggle"), "spec_tags": ("count", "gcoord"), "sample_tags": ("count", "gover"),
         "rule": "shuffling games (knight/king/rook dances, triangulations, loss of rights, en-passant opportunities, interleaved undo) in which every position is registered as it arises: the returned count is compared with a "
                 "reference multiset of (placement, side to move, rights, ep target) kept by the harness, and with the model's count; the third occurrence must be reported as a draw",
     },
@@ -203,8 +210,13 @@ def scenarios(pid, tier, seed):
         ])
     if pid == "C08":
         return [
-            {"args": ["scen", "family=searches", "depths=1,2", "pools=1,4,16", "walkpos=%d" % (24 if q else 400), "game=%d" % (4 if q else 12), S], "shards": 16},
-            {"args": ["scen", "family=searches", "depths=3", "pools=1,4,16", "maxpieces=%d" % (10 if q else 16), "walkpos=%d" % (16 if q else 300), "game=%d" % (3 if q else 10), S], "shards": 16},
+            {"args": ["scen", "family=searches", "depths=1,2", "pools=1,4,16", "walkpos=%d" % (6 if q else 400), "game=%d" % (3 if q else 12), "maxpieces=%d" % (20 if q else 32), S], "shards": 16},
+            {"args": ["scen", "family=searches", "depths=3", "pools=1,4,16", "maxpieces=%d" % (6 if q else 16), "walkpos=%d" % (6 if q else 300), "game=%d" % (2 if q else 10), S], "shards": 16},
+        ]
+    if pid == "C09":
+        return [
+            {"args": ["scen", "family=schedules", "depths=2", "per=%d" % (4 if q else 12), "walkpos=%d" % (3 if q else 200), "maxpieces=%d" % (9 if q else 32), S], "shards": 16},
+            {"args": ["scen", "family=schedules", "depths=3", "per=%d" % (3 if q else 12), "walkpos=%d" % (2 if q else 120), "maxpieces=%d" % (4 if q else 12), S], "shards": 16},
         ]
     if pid == "C10":
         return [
@@ -212,7 +224,8 @@ def scenarios(pid, tier, seed):
         ]
     if pid == "C14":
         return [
-            {"args": ["scen", "family=games", "len=%d" % (14 if q else 60), "allpairs=%d" % (9 if q else 5), "walkpos=%d" % (8 if q else 120), S], "shards": 16},
+            {"args": ["scen", "family=cli", "per=%d" % (8 if q else 40), "walkpos=%d" % (40 if q else 1500), S], "shards": 16},
+            {"args": ["scen", "family=games", "len=%d" % (10 if q else 60), "allpairs=%d" % (60 if q else 5), "walkpos=%d" % (4 if q else 120), S], "shards": 16},
         ]
     if pid == "C15":
         return [
@@ -220,6 +233,7 @@ def scenarios(pid, tier, seed):
         ]
     if pid == "C17":
         return [
-            {"args": ["scen", "family=repetition", "count=%d" % (64 if q else 1200), "len=%d" % (60 if q else 160), "undo=12", S], "shards": 16},
+            {"args": ["scen", "family=repetition", "count=%d" % (480 if q else 6000), "len=%d" % (80 if q else 200), "undo=12", S], "shards": 16},
+            {"args": ["scen", "family=apirepetition", "count=%d" % (3 if q else 12), S], "shards": 1},
         ]
     raise KeyError(pid)
